@@ -81,6 +81,25 @@ func c01CheckRead(st *Store, root cid.Cid, data []byte, how string, bufSize int)
 	if err != nil || end != int64(len(data)) {
 		return fmt.Errorf("%s: Seek(0,End) = %d,%v want %d", how, end, err, len(data))
 	}
+	// streamed read by io.Copy straight from the reader (which may use a WriterTo the reader offers), then the reader must
+	// know it is at the end, and a relative seek back must land where it says
+	rs3, _ := lb.AsLargeBytes()
+	var out3 bytes.Buffer
+	if _, err := io.Copy(&out3, rs3); err != nil || !bytes.Equal(out3.Bytes(), data) {
+		return fmt.Errorf("%s: io.Copy from the reader delivered %d bytes (err %v), want %d", how, out3.Len(), err, len(data))
+	}
+	if p, err := rs3.Seek(0, io.SeekCurrent); err != nil || p != int64(len(data)) {
+		return fmt.Errorf("%s: after io.Copy of the whole file the reader reports position %d (err %v), want %d", how, p, err, len(data))
+	}
+	if k := int64(len(data)) / 3; k > 0 {
+		if p, err := rs3.Seek(-k, io.SeekCurrent); err != nil || p != int64(len(data))-k {
+			return fmt.Errorf("%s: Seek(-%d,Current) after io.Copy = %d,%v want %d", how, k, p, err, int64(len(data))-k)
+		}
+		tail, err := io.ReadAll(plainReader{rs3})
+		if err != nil || !bytes.Equal(tail, data[int64(len(data))-k:]) {
+			return fmt.Errorf("%s: tail after io.Copy + relative seek: %d bytes (err %v), want %d", how, len(tail), err, k)
+		}
+	}
 	return nil
 }
 
